@@ -11,19 +11,60 @@ from harness.common import ok, bad
 PROP = "C02"
 LEVEL = "proof"
 HASHSEEDS = {"quick": [0, 1, 2, 3], "thorough": list(range(16))}
-BUDGET_S = {"quick": 150, "thorough": 1500}
+BUDGET_S = {"quick": 150, "thorough": 1800}
 EXHAUSTIVE = {"quick": False, "thorough": False}
 RULE = ("connected Bayesian networks (random DAGs, the fill-in shapes A>B>C>D,A>E>D and longer cycles, chains, "
         "stars, v-structures), Markov networks (incl. chordless 4/5-cycles), factor graphs and hand-built "
-        "JunctionTree objects (random RIP trees, half of them with 2-3 factors, also equal ones, on a clique; a few non-RIP trees where only model==pgmpy is compared); "
-        "cardinalities 2-3, dyadic potentials with exact zeros, node names str/int/tuple/mixed, state names "
-        "str/int/mixed; every model is run under every PYTHONHASHSEED of the tier (clique order, spanning tree "
-        "and factor placement depend on it).  Per model: calibrate and max_calibrate (every clique and sepset "
-        "belief vs the model on the same tree, exact equality of the model's beliefs with brute-force sum-/max-"
-        "marginals, neighbour agreement, the verified junction-tree and schedule certificates on pgmpy's tree), then queries: "
-        "ALL disjoint (Q,E) subsets when n<=4, a random sample otherwise, evidence by state NAME, joint True/False, "
-        "virtual evidence (BN), map_query.  A case is non-trivial when the tree has >=2 cliques and at least one "
-        "query has evidence; distinct = distinct (model, hash seed)")
+        "JunctionTree objects (random RIP trees, half of them with 2-3 factors, also equal ones, on a clique; a few "
+        "non-RIP trees where only model==pgmpy is compared); every model is run under every PYTHONHASHSEED of the tier "
+        "(clique order, spanning tree and factor placement depend on it).  Per model: calibrate and max_calibrate "
+        "(every clique and sepset belief vs the model on the same tree, EXACT equality of the model's beliefs with "
+        "brute-force sum-/max-marginals, neighbour agreement, the verified junction-tree / tree / schedule "
+        "certificates on pgmpy's tree), then queries: ALL disjoint (Q,E) subsets when n<=4, a sample otherwise plus a "
+        "query joining >=3 leaf cliques, evidence by state NAME, evidence={} and None, joint True/False, virtual "
+        "evidence as TabularCPD and as DiscreteFactor (BN; also through map_query), map_query incl. the default "
+        "variables=None (BN/MN).  Generalisation classes (notes/GENERALISATION_CHECKLIST.md): "
+        "A sessions - on models flagged 'session' (every second one): shuffled interleaving of calibrate / max_calibrate "
+        "/ query / map_query / virtual-evidence query on ONE engine; then the model is edited through its own mutators "
+        "(add_cpds replacing a CPD, remove_node of a leaf, remove_factors+add_factors on MarkovNetwork and JunctionTree) "
+        "and a NEW engine must equal the freshly computed edited joint while the old engine, which has answered "
+        "queries, keeps the model it was built from (editing the user's model while an engine that has not yet "
+        "answered holds it is outside the domain: engines are built on a finished model); "
+        "B purity - the variables list, the evidence dict and the virtual-evidence factors are passed as the SAME "
+        "objects to BP and VE and compared with snapshots after every call; the caller's model is compared with a deep "
+        "snapshot after all inference; "
+        "C result independence - the returned factor (values and state_names) is overwritten, the next result is a new "
+        "object with the right numbers; all clique beliefs handed out are overwritten: the model's potentials are "
+        "unchanged and re-calibration is right again; "
+        "D pandas frames - not applicable: no API of this property takes or returns a frame; "
+        "E names - str/int/tuple/mixed and a 'substr' style (x1/x10/x/1x/G/G2/G20/0/00/_x); "
+        "F state names - str/int/mixed, integers that are not their positions ([1,0], [2,0,1]), 1-based, booleans, equal "
+        "names across variables; a parent whose states are listed in another order by its child's CPD must be rejected; "
+        "G sizes - a 9-variable factor with integer names 0..12 ('wide'), cardinality-1 variables, single-node BN/MN, "
+        "falsy names/states 0 and False, empty and None evidence; edgeless models with >=2 nodes are disconnected and "
+        "must be rejected (kind=reject); "
+        "H magnitudes - chains with one state damped by 2^-40 and a row-stochastic far factor (rows summing to 1 "
+        "and 3: only entries far below the table's maximum stay uncalibrated after the first root); a third of the "
+        "MN/FG/JT models have every factor multiplied by its own 2^e, |e|<=80 (total "
+        "below 300 bits) and one state of one variable damped by 2^-40, exact zeros throughout; every entry is compared "
+        "at 1e-9 RELATIVE to its own exact value, an exact zero must be below 1e-9 of the smallest non-zero entry; "
+        "evidence of probability 0 is the only thing not compared; "
+        "I backends - every sixth model runs on the torch backend (float64, cpu); "
+        "J variants - joint, evidence None/{}, virtual_evidence (two types), map_query (+virtual evidence, +default "
+        "variables), ALL triangulation heuristics H1..H6 and an explicit elimination order, in place and out of place, "
+        "on every non-chordal model (2 variants in quick, 7 in thorough) and on dedicated 5-/6-cycle, grid and two-"
+        "square shapes with cardinalities 2-4 (all 7 variants in both tiers); map_query() with default variables on "
+        "FactorGraph/JunctionTree engines is left to C03; "
+        "K rejected calls - variables/evidence overlap, unknown state name, out-of-range state number, unknown evidence "
+        "variable (BN), virtual evidence whose LAST item has the wrong cardinality: each must raise, leave the engine's "
+        "model as it was and be followed by a correct query; JunctionTree.add_edge must refuse an edge closing a cycle "
+        "and an edge between disjoint cliques and leave the tree unchanged; disconnected and state-order-inconsistent "
+        "models must be refused by the constructor; "
+        "L orders - insertion order of nodes, edges, CPDs and factors is shuffled per model, query and evidence order "
+        "per call, hash seeds per tier; "
+        "M budget - handled by tools/check.py.  "
+        "A case is non-trivial when the tree has >=2 cliques and at least one query has evidence; distinct = distinct "
+        "(model, hash seed, backend)")
 TRUSTED_BASE = ["junction-tree CONSTRUCTION (triangulation, cliques, spanning tree, factor assignment) is taken as "
                 "an input from pgmpy (property C14); here its output is checked by the verified certificate jt_chk "
                 "and its potentials' product by brute force against the model's factors",
@@ -32,8 +73,11 @@ TRUSTED_BASE = ["junction-tree CONSTRUCTION (triangulation, cliques, spanning tr
                 "opt_einsum contraction in VariableElimination.query is modelled as sum-product elimination "
                 "(Base/VE.v: every order gives the same result)"]
 ASSUMPTIONS = ["floats are exact dyadics on input; outputs compared at 1e-9 relative to the table's largest entry",
-               "pgmpy's convergence test uses numpy.allclose, the model's is exact; final beliefs do not depend on "
-               "where the loop stops once calibrated",
+               "pgmpy's convergence test (after 430ea53/1cd942d) is purely relative: numpy.allclose(rtol=1e-5, atol=0) "
+               "between the two sepset marginals and the sepset belief; the model's is exact equality.  Exact equality "
+               "implies pgmpy's test, and further rounds after true calibration change nothing (C02_converged_stable), "
+               "so the exact test remains the right abstraction; a premature stop of pgmpy's approximate test that "
+               "changes any belief entry by more than 1e-9 relative is reported by the per-entry comparison",
                "for Bayesian networks pgmpy drops evidence d-separated from the query before BP (C01's pruning "
                "theorem); the model conditions on all evidence; cases with P(evidence)=0 are not compared"]
 
@@ -239,6 +283,35 @@ def gen_cyc(rng, idx):
     return {"kind": kind, "n": n, "cards": cards, "factors": factors, "cyc": True}
 
 
+def gen_rowstoch(rng):
+    """a chain of pair factors in which one state of an inner variable is damped by 2^-40 and the factor beyond it
+    has rows summing to 1 for the other states and to 3 for the damped one: after the first root (an end clique
+    under some hash seed) only entries far below the table's maximum are still uncalibrated"""
+    n = rng.choice([4, 5])
+    order = list(range(n))
+    rng.shuffle(order)
+    cards = [2] * n
+    for v in range(n):
+        if rng.random() < 0.3:
+            cards[v] = 3
+    k = rng.randint(1, n - 3) if n > 3 else 1          # damped variable: order[k+1]; far factor: (order[k+1], order[k+2])
+    factors = []
+    for i in range(n - 1):
+        a, b = order[i], order[i + 1]
+        if i == k + 1:      # far factor: rows over a
+            vals = []
+            for sa in range(cards[a]):
+                row = common.rand_column(rng, cards[b], zeros=False)
+                mult = Fraction(3) if sa == cards[a] - 1 else Fraction(1)
+                vals += [x * mult for x in row]
+        else:
+            vals = rand_table(rng, cards[a] * cards[b], False)
+            if i == k:      # damp the LAST state of b = order[k+1]
+                vals = [x * (Fraction(1, 2 ** 40) if (j % cards[b]) == cards[b] - 1 else 1) for j, x in enumerate(vals)]
+        factors.append({"scope": [a, b], "values": [F2(x) for x in vals]})
+    return {"kind": rng.choice(["mn", "mn", "fg"]), "n": n, "cards": cards, "factors": factors, "rowstoch": True}
+
+
 def gen_wide(rng):
     """one factor over 9 binary variables (a set of small ints iterates in increasing order only below 8)
     plus pendant pair factors; integer variable names"""
@@ -365,6 +438,8 @@ def cases(tier, seed):
         models.append(gen_jt_nonrip(rng))
     for _ in range(1 if tier == "quick" else 4):
         models.append(gen_wide(rng))
+    for _ in range(3 if tier == "quick" else 10):
+        models.append(gen_rowstoch(rng))
     c0 = rng.randrange(len(CYC_SHAPES))
     for i in range(3 if tier == "quick" else 2 * len(CYC_SHAPES)):
         models.append(gen_cyc(rng, c0 + i))
@@ -378,9 +453,10 @@ def cases(tier, seed):
         m["sstyle"] = rng.choice(SSTYLES)
         m["nameseed"] = rng.randint(0, 10 ** 9)
         m["qseed"] = rng.randint(0, 10 ** 9)
-        m["backend"] = "torch" if mi % 6 == 5 and not m.get("scaled") else "numpy"
+        m["backend"] = "torch" if mi % 6 == 5 and not m.get("scaled") and not m.get("rowstoch") else "numpy"
         # which of the optional streams run on this model (every stream runs in both tiers)
         m["session"] = (mi % 2 == 0)
+        m["tier"] = tier
         k = 2 if tier == "quick" else 7
         m["heur"] = list(HEUR) if m.get("cyc") else rng.sample(HEUR, k)
         for h in hs:
@@ -1256,31 +1332,12 @@ def jt_guard_checks(m, cx, case, rng):
     return None
 
 
-def tiny_sepset(case):
-    """diagnosing predicate of finding bp-converged-absolute-tolerance: the case is a scaled one and some pair of
-    variable sets that can be a sepset (here: any single variable or pair inside a factor scope) has an exact
-    marginal entirely below 1e-6, so that numpy.allclose's absolute tolerance 1e-8 decides _is_converged"""
-    if not case.get("scaled"):
-        return False
-    joint = brute_joint(case)
-    cards = case["cards"]
-    for v in range(case["n"]):
-        for op in ("sum", "max"):
-            if max(brute_table(joint, cards, [v], op=op)) < Fraction(1, 10 ** 6):
-                return True
-    return False
-
-
 def run_case(case, drv):
     set_backend(case)
     try:
         if case["kind"] == "reject":
             return run_reject_case(case, drv)
-        out = run_model_case(case, drv)
-        if (not out["ok"]) and out.get("finding") is None and out.get("kind", "").startswith("impl!=") \
-                and tiny_sepset(case):
-            out["finding"] = "bp-converged-absolute-tolerance"
-        return out
+        return run_model_case(case, drv)
     finally:
         if case.get("backend") == "torch":
             from pgmpy import config
@@ -1308,6 +1365,8 @@ def run_model_case(case, drv):
         tags.append("magnitudes: factors scaled by 2^e, |e|<=80, one state damped by 2^-40")
     if case.get("wide"):
         tags.append("9-variable factor")
+    if case.get("rowstoch"):
+        tags.append("damped state with a row-stochastic far factor")
     if 1 in cards:
         tags.append("cardinality-1 variable")
     cx = Ctx()
@@ -1343,10 +1402,11 @@ def run_model_case(case, drv):
             if Q:
                 qs.append((Q, E))
         tags.append("queries=all-subsets")
-        if len(qs) > 40:
-            qs = rng.sample(qs, 40)
+        cap = 24 if case.get("tier") == "quick" else 40
+        if len(qs) > cap:
+            qs = rng.sample(qs, cap)
     else:
-        for _ in range(3 if case.get("wide") else 10):
+        for _ in range(2 if case.get("wide") else (7 if case.get("tier") == "quick" else 10)):
             k = rng.randint(1, min(3, n))
             Q = rng.sample(allv, k)
             rest = [v for v in allv if v not in Q]
@@ -1400,7 +1460,8 @@ def run_model_case(case, drv):
             if r is not None:
                 return r
             tags.append("map_query")
-    # map_query() with the documented default variables=None (all variables), no evidence
+    # map_query() with the documented default variables=None (all variables), no evidence; Bayesian and Markov
+    # networks only: for FactorGraph / JunctionTree engines model.nodes() are not the variables (left to C03)
     if n <= 6 and kind not in ("fg", "jt"):
         r = map_check(bp, cx, allv, {}, label="variables=None", variables_none=True)
         if r is not None:
@@ -1435,15 +1496,6 @@ def run_model_case(case, drv):
     # last, so that a diagnosed finding here masks nothing: calls that must be refused (fresh engine on a
     # freshly built model: the session stream may have edited m)
     m4, _, _, _ = build(case)
-    if kind in ("fg", "jt") and n <= 6:
-        # diagnosed class: the default variables=None becomes model.nodes(), which for a FactorGraph includes the
-        # factor nodes and for a JunctionTree are the cliques, not the variables
-        r = map_check(BeliefPropagation(m4), cx, allv, {}, label="variables=None", variables_none=True)
-        if r is not None:
-            if r.get("kind") == "impl!=spec:map_query-raises":
-                r["finding"] = "bp-map-query-default-variables-fg-jt"
-            return r
-        tags.append("map_query(variables=None)")
     r = reject_checks(BeliefPropagation(m4), cx, rng, case)
     if r is not None:
         return r
